@@ -511,8 +511,8 @@ func genC05(tier string, seed int64, w *caseWriter, st *c05Stats) {
 	for _, k := range []entrySpec{{"", "src/f1/"}, {files.TypeConfig, "src/d/x/"}, {files.TypeTree, "src/lnk2"}, {files.TypeTree, "src/lnk2/"},
 		{"", "src/pat/app[12].conf"}, {files.TypeConfig, "src/g[1].txt"}, {"", ".*rc"}, {files.TypeConfig, ".*"}, {"", ".hidden/**"}, {"", "src/f1"}} {
 		for _, d := range []string{"/a", "/a/", "/a/b"} {
-			for _, tag := range []string{"", "termux.deb", "deb,rpm", "deb"} {
-				for _, pk := range []string{"", "deb", "termux.deb", "rpm"} {
+			for _, tag := range []string{"", "termux.deb", "deb,rpm", "deb", "dpkg", "dnf", "pacman"} {
+				for _, pk := range []string{"", "deb", "termux.deb", "rpm", "archlinux"} {
 					emit([]*files.Content{mkEntry(k, d, tag, 0)}, pk, 0o022, fixedMT, false, "f")
 					emit([]*files.Content{mkEntry(entrySpec{"", "src/f2"}, "/a/plain", "", 0), mkEntry(k, d, tag, 0)}, pk, 0o022, fixedMT, false, "f")
 				}
@@ -541,7 +541,7 @@ func genC05(tier string, seed int64, w *caseWriter, st *c05Stats) {
 	}
 	umasks := []fs.FileMode{0, 0o002, 0o022, 0o077}
 	// (names with punctuation: a format an embedder registered, or a typo - one name, not a list)
-	rpk := []string{"", "deb", "rpm", "apk", "ipk", "archlinux", "foo", "termux.deb", "deb,rpm", "rpm-deb"}
+	rpk := []string{"", "deb", "rpm", "apk", "ipk", "archlinux", "foo", "termux.deb", "deb,rpm", "rpm-deb", "dpkg", "dnf", "pacman", "opkg", "alpine", "arch"}
 	for i := 0; i < random; i++ {
 		ne := 1 + rng.Intn(6)
 		var es []*files.Content
